@@ -73,6 +73,16 @@ CHECKS = {
          "All 256 presence patterns of optional members of both option documents are combined with every single presentation change (binary members in five spellings, numbers in four, unknown members at every position of every object, unknown enumeration strings, unknown entries at every index of every lenient list incl. pubKeyCredParams with unknown alg in every member order); thorough adds all pairs. base64url identity is exhaustive to length 2/3; emitted credentials of 72 ceremonies are re-parsed; client-data member order is checked for all orders of up to three unknown members with three extra-data types.",
          "serde_json trusted as generic parser; entries of a different JSON shape and unknown credential types are outside the alphabet.",
          "DESIGN.md §2 C14"),
+ "C16": ("model_checking",
+         "exhaustive enumeration of all payload lengths on one channel plus explicit-state search (stateright BFS) over all interleavings of 2-4 packet streams with the real ChannelHandler as the state (cloned and snapshotted through the verif hook)",
+         "Every payload length 0..7700 (and 65535/65536/70000) is sent through the real Message::send, the written bytes are parsed by the harness against the CTAPHID packet layout and fed to a fresh receiver. For 2, 3 and 4 concurrently transmitting channels with streams of 1-4 packets (all length combinations), channels sending two messages back to back and a stray continuation for an idle channel, all reachable (position vector, handler state) pairs are explored; each transition checks that a message is delivered exactly on the last packet of its stream and equals what was sent. The search is run twice with different thread counts and cross-checked by a hook-free enumeration of all complete interleavings.",
+         "Long-stream interleavings are not sampled (other technique); interleavings are exhaustive for streams up to 4 packets (6 in thorough). Out-of-order packets within one channel are outside the statement.",
+         "DESIGN.md §2 C16"),
+ "C17": ("model_checking",
+         "bounded-exhaustive enumeration of U2F inputs (every key-handle length, boundary counters, patterns) and explicit-state BFS over register/authenticate sequences on the real U2fApi; ECDSA verification and raw-message parsing by the harness as oracle",
+         "Register, authenticate and unknown-handle runs for every key-handle length 0..255 and the product of challenge/application patterns, counters, presence and both stores; all well-formed extended-length request frames parsed back; all sequences of register/authenticate over two handles and two applications to the depth bound on both stores. Signatures are verified over the byte strings the U2F raw-message specification prescribes; raw encodings are parsed field by field.",
+         "Signature encoding raw or DER accepted; authentication with a known handle under another application is recorded, not judged.",
+         "DESIGN.md §2 C17"),
 }
 
 NOT_BUILT = "check not built yet in this revision of the harness (planned per DESIGN.md §2); no claim is made"
